@@ -29,20 +29,38 @@ def std_filt(w, fid):
     return _memo(w, "filt", fid, lambda: _std_filt(w, fid))
 
 
-def _std_filt(w, fid):
+class _MethodFilt:
+    """filters handed out as BOUND METHODS of sibling objects (one function, several receivers)"""
 
-    def f(e, v2):
-        l = w.id_of(e)
-        o = w.id_of(v2)
-        if fid == 0:
-            return True
-        if fid == 1:
-            return False
-        if fid == 2:
-            return l % 2 == 0
-        if fid == 3:
-            return o is not None and o % 2 == 0
-        return (l + o) % 2 == 0 if o is not None else l % 2 == 0
+    def __init__(self, w, fid):
+        self.w, self.fid = w, fid
+
+    def accept(self, e, v2):
+        return _filt_value(self.w, self.fid, e, v2)
+
+
+def _filt_value(w, fid, e, v2):
+    l = w.id_of(e)
+    o = w.id_of(v2)
+    if fid == 0:
+        return True
+    if fid == 1:
+        return False
+    if fid == 2:
+        return l % 2 == 0
+    if fid == 3:
+        return o is not None and o % 2 == 0
+    return (l + o) % 2 == 0 if o is not None else l % 2 == 0
+
+
+def _std_filt(w, fid):
+    """Distinct filters that are siblings in every way but identity: ids 0-2 are functions sharing ONE code object (their
+    state is captured as default arguments, so there is no closure), the others are bound methods of one class."""
+    if fid > 2:
+        return _MethodFilt(w, fid).accept
+
+    def f(e, v2, _w=w, _fid=fid):
+        return _filt_value(_w, _fid, e, v2)
     return f
 
 
@@ -115,14 +133,33 @@ def run_query(w, q):
     raise H.CaseInvalid(f"unknown query {t}")
 
 
-def build_and_query(ops, queries, setup=None):
-    """Execute builder ops on a fresh world, snapshot, then run queries.  Returns dict or None."""
+def warm_memo(w):
+    """with caching on: ask neighbors() of every vertex under the common settings, so that later calls meet a warm memo"""
+    for o in list(w.objs):
+        if H.kind_of(o) in H.VERTEX_KINDS:
+            for d in ("Fwd", "AnyDir", "Bwd"):
+                for u in ("UNb", "UNon"):
+                    try:
+                        helpers.neighbors(o, direction_sensitive=DIRC[d], unknown_handling=UNKC[u])
+                    except Exception:  # noqa: BLE001
+                        pass
+
+
+def build_and_query(ops, queries, setup=None, caching=False, then_ops=()):
+    """Execute builder ops on a fresh world, (optionally: switch neighbor caching on, warm every memo, run `then_ops`),
+    snapshot, then run queries.  Returns dict or None."""
+    from edgegraph.structure import Vertex
     w = H.World()
     try:
         for op in ops:
             w.do(op)
         if setup:
             setup(w)
+        if caching:
+            Vertex.NEIGHBOR_CACHING = True
+            warm_memo(w)
+        for op in then_ops:
+            w.do(op)
         snap = w.snapshot()
         answers = [run_query(w, q) for q in queries]
         snap_after = w.snapshot()
@@ -174,7 +211,7 @@ def gen_graph_ops(rng, nv=None, nl=None, odd=0.25, universes=True):
     nid = len(ops)
     shared_uid = rng.random() < 0.3
     for _ in range(nv):
-        op = ["NV", rng.random() < 0.2, [], []]
+        op = ["NV", rng.choice(H.NV_CLASSES), [], []]
         if shared_uid and rng.random() < 0.6:
             op.append(7000 + rng.randrange(2))      # two or more vertices end up with the same caller-supplied uid
         ops.append(op)
